@@ -27,6 +27,11 @@ def nat_dist(code, direction, p, defo=None, kwargs=None):
     from panqec.error_models import PauliErrorModel
     em = PauliErrorModel(*direction, deformation_name=defo, deformation_kwargs=kwargs or None)
     em.probability_distribution.cache_clear()
+    return nat_dist_of(em, code, direction, p, defo, kwargs)
+
+
+def nat_dist_of(em, code, direction, p, defo=None, kwargs=None):
+    """the table of a GIVEN model object (whatever was done with it before) against the stated channel"""
     pi, px, py, pz = em.probability_distribution(code, p)
     n = code.n
     base = {'I': 1 - p, 'X': p * direction[0], 'Y': p * direction[1], 'Z': p * direction[2]}
@@ -62,7 +67,8 @@ class _NCode:
         self.n = n
 
 
-def nat_generate(em, code, p, us):
+def _coupling_check(em, code, p, us):
+    """the sampler as it is written today: one rng.random() per qubit, inverse CDF in the order I, X, Y, Z"""
     pi, px, py, pz = em.probability_distribution(code, p)
     err = em.generate(code, p, rng=StubRng(us))
     n = code.n
@@ -81,6 +87,64 @@ def nat_generate(em, code, p, us):
     return None
 
 
+def _measure_check(em, code, p, m=1000):
+    """implementation-independent: the push-forward of the uniform draws.  Every qubit is driven with the same u_j = (j + 1/2)/m, j < m; the fraction of draws that
+    give each Pauli must equal its table entry up to the grid resolution (a sampler that is piecewise constant in u with <= 4 pieces per qubit)"""
+    pi, px, py, pz = em.probability_distribution(code, p)
+    n = code.n
+    cnt = np.zeros((4, n))
+    for j in range(m):
+        err = np.asarray(em.generate(code, p, rng=StubRng([(j + 0.5) / m])))
+        if err.shape != (2 * n,):
+            return 'generate returned shape %r, expected (%d,)' % (err.shape, 2 * n)
+        x, z = err[:n].astype(int), err[n:].astype(int)
+        cnt[0] += (1 - x) * (1 - z); cnt[1] += x * (1 - z); cnt[2] += x * z; cnt[3] += (1 - x) * z
+    freq = cnt / m
+    tol = 5.0 / m
+    for k, (nm, t) in enumerate(zip('IXYZ', (pi, px, py, pz))):
+        bad = np.nonzero(np.abs(freq[k] - np.asarray(t, dtype=float)) > tol)[0]
+        if len(bad):
+            i = int(bad[0])
+            return ('qubit %d: a fraction %.4f of the uniform draws gives %s, the channel probability is %.4f (table (p_I,p_X,p_Y,p_Z) = %r)'
+                    % (i, float(freq[k][i]), nm, float(t[i]), (float(pi[i]), float(px[i]), float(py[i]), float(pz[i]))))
+    return None
+
+
+def _statistical_check(em, code, p, nsamp=20000, seed=12345):
+    """last resort for a sampler that cannot be driven by the stub generator: seeded samples, 6.5-sigma band per (qubit, Pauli) - deterministic for a given seed"""
+    pi, px, py, pz = em.probability_distribution(code, p)
+    n = code.n
+    rng = np.random.default_rng(seed)
+    cnt = np.zeros((4, n))
+    for _ in range(nsamp):
+        err = np.asarray(em.generate(code, p, rng=rng))
+        x, z = err[:n].astype(int), err[n:].astype(int)
+        cnt[0] += (1 - x) * (1 - z); cnt[1] += x * (1 - z); cnt[2] += x * z; cnt[3] += (1 - x) * z
+    for k, (nm, t) in enumerate(zip('IXYZ', (pi, px, py, pz))):
+        t = np.asarray(t, dtype=float)
+        band = 6.5 * np.sqrt(np.maximum(t * (1 - t), 1e-12) / nsamp) + 1e-9
+        bad = np.nonzero((np.abs(cnt[k] / nsamp - t) > band) | ((t == 0) & (cnt[k] > 0)))[0]
+        if len(bad):
+            i = int(bad[0])
+            return 'qubit %d: %s sampled with frequency %.4f over %d seeded samples, channel probability %.4f' % (i, nm, cnt[k][i] / nsamp, nsamp, float(t[i]))
+    return None
+
+
+def nat_generate(em, code, p, us):
+    """sampling contract of C07.  The property asks for the right per-qubit DISTRIBUTION, not for a particular coupling to the generator: the exact coupling of the
+    present implementation is tried first (exact, cheap); if it does not hold, the implementation-independent measure test decides; if the sampler cannot be
+    driven by the stub generator at all, a seeded statistical test decides."""
+    try:
+        why = _coupling_check(em, code, p, us)
+    except (AttributeError, TypeError, IndexError):
+        why = 'stub generator not usable'
+    if why is None:
+        return None
+    try:
+        why2 = _measure_check(em, code, p)
+    except (AttributeError, TypeError, IndexError):
+        return _statistical_check(em, code, p)
+    return why2
 def nat_weights(em, code, p, eps=1e-20):
     pi, px, py, pz = em.probability_distribution(code, p)
     wx, wz = em.get_weights(code, p, eps=eps)
